@@ -85,6 +85,37 @@ impl std::fmt::Write for Limited {
     }
 }
 
+/// The obligations on one formatted text `s` of value `v` (`spec` = "" for plain `{}`).
+fn judge_line(v: &A1, s: &str, spec: &str, case: &str, rec: &mut Recorder) {
+    let tag = |rule: &str| if spec.is_empty() { rule.to_string() } else { format!("{}:{}", rule, spec) };
+    let viol = |rec: &mut Recorder, rule: &str, line: &str, detail: String| {
+        rec.violation(&tag(rule), case.to_string(), skeleton_text(line.as_bytes()), format!("{}: value {:?} formats{} to {:?}; {}", rule, v, if spec.is_empty() { String::new() } else { format!(" with {}", spec) }, line, detail));
+    };
+    if s.len() > 107 {
+        viol(rec, "line-too-long", s, format!("{} bytes", s.len()));
+    }
+    // independent decoding
+    match v1_ref(s.as_bytes()) {
+        V1Ref::Accept(acc) if acc.header_len == s.len() && a1_of_accept(&acc) == *v => {}
+        other => viol(rec, "not-canonical", s, format!("the grammar oracle reads it as {:?}", other)),
+    }
+    // every text entry point gives back the value (and the header text)
+    let outs = [("try_from(&str)", v1_str(s)), ("try_from(&[u8])", v1_bytes(s.as_bytes())), ("parse::<Header>", v1_fromstr_header(s)), ("parse::<Addresses>", v1_fromstr_addr(s))];
+    for (name, o) in outs.iter() {
+        rec.event();
+        match o {
+            O1::Ok { header, addr, .. } => {
+                if addr != v {
+                    viol(rec, &format!("round-trip:{}", name), s, format!("{} gives back {:?}", name, addr));
+                } else if *name != "parse::<Addresses>" && header != s {
+                    viol(rec, &format!("round-trip:{}", name), s, format!("{} reports header text {:?}", name, header));
+                }
+            }
+            other => viol(rec, &format!("round-trip:{}", name), s, format!("{} gives {:?}", name, other)),
+        }
+    }
+}
+
 fn judge_value(v: &A1, rec: &mut Recorder) {
     let case = format!("val:{}", a1_text(v));
     rec.case(hash_bytes(case.as_bytes()), *v != A1::Unknown);
@@ -132,27 +163,37 @@ fn judge_value(v: &A1, rec: &mut Recorder) {
         },
         || s.clone(),
     );
-    if s.len() > 107 {
-        viol(rec, "line-too-long", &s, format!("{} bytes", s.len()));
-    }
-    // independent decoding
-    match v1_ref(s.as_bytes()) {
-        V1Ref::Accept(acc) if acc.header_len == s.len() && a1_of_accept(&acc) == *v => {}
-        other => viol(rec, "not-canonical", &s, format!("the grammar oracle reads it as {:?}", other)),
-    }
-    // every text entry point gives back the value (and the header text)
-    let outs = [("try_from(&str)", v1_str(&s)), ("try_from(&[u8])", v1_bytes(s.as_bytes())), ("parse::<Header>", v1_fromstr_header(&s)), ("parse::<Addresses>", v1_fromstr_addr(&s))];
-    for (name, o) in outs.iter() {
-        rec.event();
-        match o {
-            O1::Ok { header, addr, .. } => {
-                if addr != v {
-                    viol(rec, &format!("round-trip:{}", name), &s, format!("{} gives back {:?}", name, addr));
-                } else if *name != "parse::<Addresses>" && header != &s {
-                    viol(rec, &format!("round-trip:{}", name), &s, format!("{} reports header text {:?}", name, header));
+    judge_line(v, &s, "", &case, rec);
+    // the same value through format specs that carry flags (width, fill, sign, zero padding,
+    // precision, alternate): whatever text comes out is "the text it formats to" and has to meet
+    // the same obligations; also through `&v`, `Box`, and a second time
+    if hash_bytes(case.as_bytes()) % 8 == 1 {
+        let a = to_ppp(v);
+        let outs = guard(|| {
+            vec![
+                ("{:>4}", format!("{:>4}", a)),
+                ("{:<120}", format!("{:<120}", a)),
+                ("{:+}", format!("{:+}", a)),
+                ("{:08}", format!("{:08}", a)),
+                ("{:.3}", format!("{:.3}", a)),
+                ("{:^9.2}", format!("{:^9.2}", a)),
+                ("{:#}", format!("{:#}", a)),
+                ("{:*<60}", format!("{:*<60}", a)),
+                ("{:1$}", format!("{:1$}", a, 70)),
+                ("&value", format!("{}", &a)),
+                ("Box<value>", format!("{}", Box::new(a))),
+                ("again", a.to_string()),
+            ]
+        });
+        match outs {
+            Ok(list) => {
+                for (spec, text) in list {
+                    rec.event();
+                    rec.class("display:with-format-flags", || format!("{} -> {:?}", spec, text));
+                    judge_line(v, &text, spec, &case, rec);
                 }
             }
-            other => viol(rec, &format!("round-trip:{}", name), &s, format!("{} gives {:?}", name, other)),
+            Err(m) => viol(rec, "panic", &s, format!("formatting with flags panicked: {}", m)),
         }
     }
     // a distinct value must not share the line (swap source and destination)
@@ -169,6 +210,55 @@ fn judge_value(v: &A1, rec: &mut Recorder) {
                     viol(rec, "not-injective", &s, format!("the distinct value {:?} formats to the same line", w));
                 }
             }
+        }
+    }
+}
+
+/// Values related to `v`, formatted right after it on the same thread: formatting is a function
+/// of the value alone, so a neighbour that is numerically equal in the other family, or differs
+/// only in its ports or in the order of its endpoints, must not inherit anything.
+fn value_siblings(v: &A1) -> Vec<A1> {
+    let widen = |a: &[u8; 4], mapped: bool| -> [u8; 16] {
+        let mut x = [0u8; 16];
+        if mapped {
+            x[10] = 0xff;
+            x[11] = 0xff;
+        }
+        x[12..].copy_from_slice(a);
+        x
+    };
+    let narrow = |a: &[u8; 16]| -> [u8; 4] { [a[12], a[13], a[14], a[15]] };
+    let mut out = Vec::new();
+    match v {
+        A1::Unknown => {}
+        A1::Tcp4 { src, dst, sp, dp } => {
+            out.push(A1::Tcp6 { src: widen(src, false), dst: widen(dst, false), sp: *sp, dp: *dp });
+            out.push(A1::Tcp6 { src: widen(src, true), dst: widen(dst, true), sp: *sp, dp: *dp });
+            out.push(A1::Tcp4 { src: *src, dst: *dst, sp: *dp, dp: *sp });
+            out.push(A1::Tcp4 { src: *src, dst: *dst, sp: sp.wrapping_add(1), dp: *dp });
+        }
+        A1::Tcp6 { src, dst, sp, dp } => {
+            out.push(A1::Tcp4 { src: narrow(src), dst: narrow(dst), sp: *sp, dp: *dp });
+            out.push(A1::Tcp6 { src: *src, dst: *dst, sp: *dp, dp: *sp });
+            out.push(A1::Tcp6 { src: *src, dst: *dst, sp: *sp, dp: dp.wrapping_add(1) });
+            let mut s2 = *src;
+            s2[..12].copy_from_slice(&[0; 12]);
+            let mut d2 = *dst;
+            d2[..12].copy_from_slice(&[0; 12]);
+            out.push(A1::Tcp6 { src: s2, dst: d2, sp: *sp, dp: *dp });
+            out.push(A1::Tcp4 { src: narrow(src), dst: narrow(dst), sp: *sp, dp: *dp });
+        }
+    }
+    out.push(A1::Unknown);
+    out.push(v.clone());
+    out
+}
+
+fn judge_value_with_history(v: &A1, idx: u64, rec: &mut Recorder) {
+    judge_value(v, rec);
+    if !spec::engine::small() && spec::engine::with_history(idx, 4) {
+        for w in value_siblings(v) {
+            judge_value(&w, rec);
         }
     }
 }
@@ -217,7 +307,7 @@ impl Monitor for C08 {
             stream("c08-v4", tier.n(50, 1_000_000, 25_000_000)),
             exhaustive("c08-v6-shapes", if tier == Tier::Miri { 64 } else { 256 * 3 * 16 }),
             stream("c08-v6", tier.n(50, 1_000_000, 25_000_000)),
-            if tier == Tier::Miri { stream("c08-sweep-s", 100) } else { exhaustive("c08-sweep", sweep_count()) },
+            if tier == Tier::Miri { stream("c08-sweep-s", 100) } else { exhaustive("c08-sweep", SWEEP_PORTS + SWEEP_OCTETS + SWEEP_GROUPS) },
             stream("v1-valid", tier.n(50, 200_000, 20_000_000)),
             stream("v1-mut", tier.n(50, 100_000, 10_000_000)),
             stream("v1-eol", tier.n(20, 50_000, 5_000_000)),
@@ -231,7 +321,7 @@ impl Monitor for C08 {
             "c08-v4" => {
                 let (a, b) = rand_v4_pair(rng);
                 let (sp, dp) = rand_port_pair(rng);
-                judge_value(&A1::Tcp4 { src: a, dst: b, sp, dp }, rec);
+                judge_value_with_history(&A1::Tcp4 { src: a, dst: b, sp, dp }, idx, rec);
             }
             "c08-v6-shapes" => {
                 let mask = (idx % 256) as u8;
@@ -245,22 +335,23 @@ impl Monitor for C08 {
                     dst[7] ^= 0x0100;
                 }
                 let (sp, dp) = rand_port_pair(rng);
-                judge_value(&A1::Tcp6 { src: bytes_of(src), dst: bytes_of(dst), sp, dp }, rec);
+                judge_value_with_history(&A1::Tcp6 { src: bytes_of(src), dst: bytes_of(dst), sp, dp }, idx, rec);
             }
             "c08-v6" => {
                 let (a, b) = rand_v6_pair(rng);
                 let (sp, dp) = rand_port_pair(rng);
-                judge_value(&A1::Tcp6 { src: bytes_of(a), dst: bytes_of(b), sp, dp }, rec);
+                judge_value_with_history(&A1::Tcp6 { src: bytes_of(a), dst: bytes_of(b), sp, dp }, idx, rec);
             }
             "c08-sweep" | "c08-sweep-s" => {
                 // every port value in each position, every octet value in each position, every
                 // group value in each position (exhaustive), the other fields random
-                let i = if stream == "c08-sweep" { idx } else { rng.below(sweep_count()) };
+                let fields = SWEEP_PORTS + SWEEP_OCTETS + SWEEP_GROUPS;
+                let i = if stream == "c08-sweep" { idx } else { rng.below(fields) };
                 let v = match sweep_values(i, rng) {
                     Val1::Tcp4 { src, dst, sp, dp } => A1::Tcp4 { src, dst, sp, dp },
                     Val1::Tcp6 { src, dst, sp, dp } => A1::Tcp6 { src, dst, sp, dp },
                 };
-                judge_value(&v, rec);
+                judge_value_with_history(&v, idx, rec);
             }
             _ => {
                 let x = v1_case(stream, idx, seed);
